@@ -39,6 +39,9 @@ pub struct Case14 {
     pub pseed: u64,
     pub int_data: bool,
     pub iters: Vec<Iter>,
+    /// Some(c): every parameter starts at the constant c (equal-shaped parameters are equal arrays)
+    #[serde(default)]
+    pub const_init: Option<f64>,
 }
 
 /// loss and its gradient w.r.t. every parameter, from the observed parameters and the batch
@@ -87,7 +90,10 @@ impl Case14 {
         let acts = acts_for(&self.specs);
         let kind = if self.int_data { VKind::Int } else { VKind::Small };
         let log: SnapLog = Rc::new(RefCell::new(vec![]));
-        let mut layers = match guarded(|| build_layers(&self.specs, &acts, self.pseed, kind, Some(&log))) {
+        let mut layers = match guarded(|| match self.const_init {
+            Some(c) => build_layers_const(&self.specs, &acts, c, Some(&log)),
+            None => build_layers(&self.specs, &acts, self.pseed, kind, Some(&log)),
+        }) {
             Ok(l) => l,
             Err(p) => return e("unexpected-panic", format!("constructing the layers panicked: {}", p)),
         };
@@ -350,7 +356,7 @@ pub fn run(ctx: &Ctx) -> i32 {
         let cost = if *ce { CostKind::CrossEntropy } else { CostKind::Mse };
         let (specs, rows, cols) = make_stack(b, if *ce { Some(if b[7] & 1 == 0 { Act::Softmax } else { Act::Sigmoid }) } else { None });
         let iters = its.iter().map(|(batch, xseed, tm, ef)| Iter { batch: *batch, xseed: *xseed, target_mode: if *tm == 0 { 1 } else if *tm == 3 { 2 } else { 0 }, extra_forward: *ef, probe_forward_after: (xseed ^ upd) % 5 == 0 }).collect();
-        Some(Case14 { specs, rows, cols, cost, lr: LRS[*lri % LRS.len()], pseed: *pseed, int_data: *int_data && !*ce, iters })
+        Some(Case14 { specs, rows, cols, cost, lr: LRS[*lri % LRS.len()], pseed: *pseed, int_data: *int_data && !*ce, iters, const_init: None })
     }));
     // structured: a linear dense layer with integer data and targets = output + cancelling perturbation
     st.merge(ctx.run_indexed("linear-dense-cancelling-gradients", 4 * 4 * 4 * 3, None, |i| {
@@ -359,7 +365,7 @@ pub fn run(ctx: &Ctx) -> i32 {
         let batch = ((i / 16) % 4) as usize;
         let lr = [0.5, 0.25, 1.0][((i / 64) % 3) as usize];
         let iters = (0..4).map(|k| Iter { batch: if k == 2 { (batch + 1) % 4 } else { batch }, xseed: i * 10 + k, target_mode: (k % 2 == 0) as u8, extra_forward: k == 1, probe_forward_after: k == 0 && i % 2 == 0 }).collect();
-        Some(Case14 { specs: vec![LayerSpec::Dense { input, output, act: Act::None }], rows: 1, cols: 1, cost: CostKind::Mse, lr, pseed: i + 3, int_data: true, iters })
+        Some(Case14 { specs: vec![LayerSpec::Dense { input, output, act: Act::None }], rows: 1, cols: 1, cost: CostKind::Mse, lr, pseed: i + 3, int_data: true, iters, const_init: None })
     }));
     // two stacked conv layers, the second with every filter shape 1..3 x 1..3 and stride 1..2 x 1..2 (windows that
     // overlap along both axes, one axis, or not at all) and at least two windows along each axis
@@ -373,7 +379,20 @@ pub fn run(ctx: &Ctx) -> i32 {
         let (rows, cols) = (fr2 + sr2 + f1 - 1, fc2 + sc2 + 1 + f1 - 1);
         let specs = vec![LayerSpec::Conv { count: 2, depth: 1, fr: f1, fc: f1, sr: 1, sc: 1, act }, LayerSpec::Conv { count: 1, depth: 2, fr: fr2, fc: fc2, sr: sr2, sc: sc2, act: Act::None }];
         let iters = (0..3).map(|k| Iter { batch: if k == 1 { batch } else { 2 - batch }, xseed: i * 10 + k, target_mode: (k % 2) as u8, extra_forward: false, probe_forward_after: false }).collect();
-        Some(Case14 { specs, rows, cols, cost: CostKind::Mse, lr: [0.5, 0.125][(i % 2) as usize], pseed: i + 11, int_data: act == Act::None, iters })
+        Some(Case14 { specs, rows, cols, cost: CostKind::Mse, lr: [0.5, 0.125][(i % 2) as usize], pseed: i + 11, int_data: act == Act::None, iters, const_init: None })
+    }));
+    // constant initialisation: parameters of equal shape in different layers are equal arrays
+    st.merge(ctx.run_indexed("constant-initialisation", 4 * 3 * 2, None, |i| {
+        let specs = match i % 4 {
+            0 => vec![LayerSpec::Dense { input: 3, output: 3, act: Act::Sigmoid }, LayerSpec::Dense { input: 3, output: 3, act: Act::None }],
+            1 => vec![LayerSpec::Dense { input: 2, output: 2, act: Act::None }, LayerSpec::Dense { input: 2, output: 2, act: Act::Sigmoid }, LayerSpec::Dense { input: 2, output: 2, act: Act::None }],
+            2 => vec![LayerSpec::Conv { count: 1, depth: 1, fr: 2, fc: 2, sr: 1, sc: 1, act: Act::None }, LayerSpec::Conv { count: 1, depth: 1, fr: 2, fc: 2, sr: 1, sc: 1, act: Act::None }],
+            _ => vec![LayerSpec::Dense { input: 1, output: 1, act: Act::Sigmoid }, LayerSpec::Dense { input: 1, output: 1, act: Act::None }],
+        };
+        let c = [0.5, 0.0, -0.25][((i / 4) % 3) as usize];
+        let batch = if (i / 12) % 2 == 0 { 2 } else { 0 };
+        let iters = (0..3).map(|k| Iter { batch, xseed: i * 10 + k + 1, target_mode: 0, extra_forward: false, probe_forward_after: false }).collect();
+        Some(Case14 { specs, rows: 4, cols: 4, cost: CostKind::Mse, lr: 0.25, pseed: i, int_data: false, iters, const_init: Some(c) })
     }));
     // the target is the tracked output of the same model on a second batch: every parameter has two consumers in one pass
     st.merge(ctx.run_indexed("target-is-the-models-own-output", 4 * 3 * 2 * 2, None, |i| {
@@ -387,7 +406,7 @@ pub fn run(ctx: &Ctx) -> i32 {
         let lr = [0.5, 0.125][((i / 12) % 2) as usize];
         let int_data = (i / 24) % 2 == 0;
         let iters = (0..3).map(|k| Iter { batch, xseed: i * 10 + k + 1, target_mode: if k == 1 { 0 } else { 2 }, extra_forward: false, probe_forward_after: false }).collect();
-        Some(Case14 { specs, rows: 3, cols: 3, cost: CostKind::Mse, lr, pseed: i + 5, int_data, iters })
+        Some(Case14 { specs, rows: 3, cols: 3, cost: CostKind::Mse, lr, pseed: i + 5, int_data, iters, const_init: None })
     }));
     {
         let rc = crate::modelroute::route_cases("c14", ctx.seed, t == Tier::Thorough);
